@@ -84,7 +84,7 @@ CHECKS = {
     },
     "C24": {
         "technique": "model-based testing: exhaustive op histories + owned schedules vs list-LRU reference model; thread stress",
-        "text": "Every op history up to length 4 (quick) / 5 (thorough) over 20 ops (values include None), capacities 1-4, both cache classes, is compared step by step with an independent list model, so within that bound the sequential clause is decided completely; longer random histories sample beyond it. 'While being listed' is decided deterministically by owned schedules (listing begun, other ops interleaved, listing drained); real threads add a one-sided stress. The cache's lock is swapped for one that raises on re-entry by its holder, so a self-deadlock is reported instead of hanging.",
+        "text": "Every op history up to length 4 (quick) / 5 (thorough) over 20 ops (values include None), capacities 1-4, both cache classes, is compared step by step with an independent list model, so within that bound the sequential clause is decided completely; longer random histories sample beyond it. 'While being listed' is decided deterministically by owned schedules (listing begun, other ops interleaved, listing drained); 'under concurrent use' by access schedules: another thread's whole operation is run before any access a call makes to the underlying dict while the lock is free, or between two of its critical sections, and the pair must equal one of its two sequential orders; real threads add a one-sided stress. The cache's lock is swapped for one that raises on re-entry by its holder, so a self-deadlock is reported instead of hanging.",
         "design_ref": "DESIGN.md §4 C24",
         "note": "Trusts the 60-line list model (vf/ref/lru.py). Real OS schedules are not owned: pre-emption inside a locked method is not explored.",
     },
